@@ -47,6 +47,9 @@ def rule_a(ctx: Ctx) -> None:
         if isinstance(n, ast.Subscript) and isinstance(n.ctx, ast.Store) and isinstance(n.value, ast.Name) and n.value.id == "payload":
             k = norm(n.slice)
             written.setdefault(k, n)
+        # payload.setdefault(KEY, <container>) creates the entry as well
+        if isinstance(n, ast.Call) and isinstance(n.func, ast.Attribute) and n.func.attr == "setdefault" and isinstance(n.func.value, ast.Name) and n.func.value.id == "payload" and n.args:
+            written.setdefault(norm(n.args[0]), n)
     read: dict[str, ast.AST] = {}
     for f in readers:
         for n in walk_no_nested(f.node):
@@ -438,7 +441,51 @@ def rule_g(ctx: Ctx) -> None:
             ctx.ok(inst, {"decided": False, "note": "encoder form not recognised"})
 
 
-RULES = [rule_a, rule_b, rule_c, rule_d, rule_e, rule_f, rule_g]
+def rule_h(ctx: Ctx) -> None:
+    ctx.rule("C12.h", "no argument vanishes in dump(): in the loop over node.args the list branch records the argument's key also when the list is empty "
+                      "(its items are the only carriers of the key otherwise), and the scalar branch skips nothing but None")
+    d = ctx.repo.func(SERDE, "dump")
+    m = d.module
+    loops = [lp for lp in walk_no_nested(d.node) if isinstance(lp, ast.For) and "args.items()" in norm(lp.iter)]
+    ctx.require(len(loops) == 1, "anchor vanished: dump() no longer iterates node.args.items() exactly once")
+    lp = loops[0]
+    tgt = [x.id for x in ast.walk(lp.target) if isinstance(x, ast.Name)]
+    ctx.require(len(tgt) == 2, "anchor vanished: dump()'s args loop no longer unpacks (key, value)")
+    k, vs = tgt
+    branches = [st for st in lp.body if isinstance(st, ast.If)]
+    ctx.require(bool(branches), "anchor vanished: dump()'s args loop has no list / scalar branches")
+    top = branches[0]
+    is_list_test = "list" in norm(top.test) and vs in norm(top.test)
+    ctx.require(is_list_test, "anchor vanished: the first branch of dump()'s args loop no longer tests for a list value")
+    # a statement of the list branch that mentions the key and is not inside the per-item loop
+    def mentions_key_outside_item_loop(stmts: list[ast.stmt]) -> bool:
+        for st in stmts:
+            if isinstance(st, ast.For) and vs in norm(st.iter):
+                continue
+            if isinstance(st, ast.If):
+                if mentions_key_outside_item_loop(st.body) or mentions_key_outside_item_loop(st.orelse):
+                    return True
+                continue
+            if any(isinstance(x, ast.Name) and x.id == k for x in ast.walk(st)):
+                return True
+        return False
+
+    if mentions_key_outside_item_loop(top.body):
+        ctx.ok(f"{d.key}|empty list arguments keep their key", {"branch": norm(top.test)})
+    else:
+        ctx.fail(m, top, d.key, f"if {norm(top.test)}: ...", "an empty list argument leaves no trace in the payload (only the items of a list carry its key): load(dump(x)) drops the argument, "
+                                                              "e.g. the empty argument list of IDENTIFIER('f')() — the reloaded tree prints different SQL")
+    # the scalar branch: only `is not None` may be skipped
+    rest = top.orelse
+    if len(rest) == 1 and isinstance(rest[0], ast.If) and norm(rest[0].test) in (f"{vs} is not None",) and not rest[0].orelse:
+        ctx.ok(f"{d.key}|scalar arguments skipped only when None", {"test": norm(rest[0].test)})
+    elif not rest:
+        ctx.fail(m, top, d.key, "missing else branch", "scalar arguments are no longer encoded")
+    else:
+        ctx.ok(f"{d.key}|scalar branch form not recognised", {"decided": False})
+
+
+RULES = [rule_a, rule_b, rule_c, rule_d, rule_e, rule_f, rule_g, rule_h]
 THOROUGH_RULES = [rule_c_args]
 EXPLANATION = (
     "Writer/reader agreement of the serialisation format decided from the source: set equality between payload keys "
